@@ -48,7 +48,7 @@ def _seed_value(kind, i=0):
 class World(object):
     """Builds N real components from a shape description; bodies log their invocation."""
 
-    def __init__(self, n, edges, outcome_of, value_of, hashes=None):
+    def __init__(self, n, edges, outcome_of, value_of, hashes=None, prios=None):
         # edges[(i, j)] = kind, j < i ; outcome_of(i) is called lazily when body i runs
         self.log = []
         self.comps = []
@@ -88,7 +88,8 @@ class World(object):
             body.__name__ = "c%d" % i
             body.__qualname__ = "c%d" % i
             body.__symx_order__ = i
-            self.comps.append(ctype(*deps, optional=opt)(body if hashes is None else HashedCallable(body, hashes[i])))
+            kw = {"prio": prios[i]} if prios and prios.get(i) else {}
+            self.comps.append(ctype(*deps, optional=opt, **kw)(body if hashes is None else HashedCallable(body, hashes[i])))
 
     def add_late(self, i, j):
         """dr.add_dependency after the components exist (what a spec set does when it hooks a datasource into a registry point):
@@ -173,13 +174,13 @@ def warm_up(w, targets, how):
         w.args.clear()
 
 
-def run_world(n, edges, outcomes, seeded, mode, disabled=(), seed_kinds=None, late=None, archive=False, hashes=None):
+def run_world(n, edges, outcomes, seeded, mode, disabled=(), seed_kinds=None, late=None, archive=False, hashes=None, prios=None):
     """Concrete run on whatever dr is imported (used natively for replay / sample validation)."""
     edges = dict(edges)
     if late:
         edges.pop((late[0], late[1]), None)
-    w = World(n, edges, lambda i: outcomes.get(i, "value"), lambda i: 1000 + i, hashes)
-    targets = list(range(n)) if mode == "all" else [n - 1]
+    w = World(n, edges, lambda i: outcomes.get(i, "value"), lambda i: 1000 + i, hashes, prios)
+    targets = list(range(n)) if mode in ("all", "group") else [n - 1]
     if late:
         warm_up(w, targets, late[2])
         w.add_late(late[0], late[1])
@@ -195,7 +196,10 @@ def run_world(n, edges, outcomes, seeded, mode, disabled=(), seed_kinds=None, la
         dr.set_enabled(w.comps[i], False)
     comps = [w.comps[i] for i in targets]
     try:
-        dr.run(comps if mode == "all" else comps[0], broker=broker)
+        if mode == "group":
+            dr.run(broker=broker)          # no components named: the graph comes from the group registry
+        else:
+            dr.run(comps if mode == "all" else comps[0], broker=broker)
     except KeyError:
         if not archive:
             raise
@@ -219,7 +223,7 @@ def _edges(en, n, kinds):
     return edges
 
 
-def make_o2(n, kinds, modes, order_mode="site", outcomes=None, max_seeded=None, late=False, archive=False):
+def make_o2(n, kinds, modes, order_mode="site", outcomes=None, max_seeded=None, late=False, archive=False, prio=False):
     outcomes = outcomes or OUTCOMES
 
     def o2(en):
@@ -252,9 +256,14 @@ def make_o2(n, kinds, modes, order_mode="site", outcomes=None, max_seeded=None, 
             def value_of(i):
                 vals[i] = en.fresh_int("v%d" % i)
                 return vals[i]
-            w = World(n, edges, outcome_of, value_of)
+            prios = None
+            if prio:
+                # one component carries a collection priority other than the default 0 (as registry points and datasources may)
+                pi = en.choice("prio_which", n)
+                prios = {pi: [1, -1, 5][en.choice("prio_value", 3)]}
+            w = World(n, edges, outcome_of, value_of, None, prios)
             if late_edge:
-                warm_up(w, list(range(n)) if mode == "all" else [n - 1], late_edge[2])
+                warm_up(w, list(range(n)) if mode in ("all", "group") else [n - 1], late_edge[2])
                 w.add_late(late_edge[0], late_edge[1])
                 edges = w.edges
             broker = dr.Broker()
@@ -273,20 +282,24 @@ def make_o2(n, kinds, modes, order_mode="site", outcomes=None, max_seeded=None, 
             for i in range(n):
                 enabled[i] = en.fresh_bool("enabled_%d" % i)
                 dr.ENABLED[w.comps[i]] = enabled[i]     # the real guard `is_enabled(component)` branches on it
-            targets = list(range(n)) if mode == "all" else [n - 1]
+            targets = list(range(n)) if mode in ("all", "group") else [n - 1]
             en.note_sample(lambda mv: {"n": n, "edges": [[i, j, k] for (i, j), k in sorted(edges.items())],
                                        "outcomes": dict((str(i), o) for i, o in chosen.items()), "seeded": seeded,
                                        "seed_kinds": dict((str(i), k) for i, k in seed_kind.items()), "mode": mode, "disabled": [i for i in range(n) if not mv.bool(enabled[i])],
-                                       "late": late_edge, "archive": archive, "log": [list(x) for x in w.log]})
+                                       "late": late_edge, "archive": archive, "prios": dict((str(k_), v_) for k_, v_ in (prios or {}).items()), "log": [list(x) for x in w.log]})
             raised = None
             with oset.symbolic_order(mode=order_mode):
                 try:
-                    dr.run([w.comps[i] for i in targets] if mode == "all" else w.comps[n - 1], broker=broker)
+                    if mode == "group":
+                        dr.run(broker=broker)
+                    else:
+                        dr.run([w.comps[i] for i in targets] if mode == "all" else w.comps[n - 1], broker=broker)
                 except Exception as ex:  # noqa
                     raised = ex
             case = lambda mv: {"kind": "run", "n": n, "edges": [[i, j, k] for (i, j), k in sorted(edges.items())],  # noqa
                                "outcomes": dict((str(i), o) for i, o in chosen.items()), "seeded": seeded, "mode": mode,
                                "seed_kinds": dict((str(i), k) for i, k in seed_kind.items()), "late": late_edge, "archive": archive,
+                               "prios": dict((str(k_), v_) for k_, v_ in (prios or {}).items()),
                                "disabled": [i for i in range(n) if not mv.bool(enabled[i])], "log": [list(x) for x in w.log]}
             if archive and isinstance(raised, KeyError):
                 # dr.run's pruning loop raises KeyError when a pre-seeded component directly depends on another pre-seeded one and
@@ -441,10 +454,10 @@ def obligations(tier):
                        stubs=stubs, encoded=enc, budget_s=1500, replay="run", check_sample=True),
         ]
     obls += [
-        Obligation("O5-late-dependency", make_o2(4 if thorough else 3, ["none", "required", "group1"], ["all", "last"], "global", ["value", "skip"], 0, late=True),
+        Obligation("O5-late-dependency", make_o2(4 if thorough else 3, ["none", "required", "group1"], ["all", "last", "group"], "global", ["value", "skip"], 0, late=True),
                    ["run-returns", "once-and-ordered"],
                    desc="a dependency declared late with dr.add_dependency, after the components were already used once (their graph was built, or they were evaluated): the next evaluation still runs the new dependency first",
-                   bounds={"components": 4 if thorough else 3, "edge kinds": ["none", "required", "group1"], "late edge": "any at-least-one edge of a group with another member", "earlier use": ["get_dependency_graph", "a complete dr.run on another broker"],
+                   bounds={"components": 4 if thorough else 3, "edge kinds": ["none", "required", "group1"], "late edge": "any at-least-one edge of a group with another member", "earlier use": ["get_dependency_graph", "a complete dr.run on another broker"], "targets": "all named / last named / none named (group registry)",
                            "outcomes": ["value", "skip"], "set order": "every global total order"},
                    stubs=stubs, encoded=enc + [dr.add_dependency, dr.ComponentType.add_dependency], budget_s=600 if thorough else 100, replay="run", check_sample=True),
         Obligation("O6-archive-prune", make_o2(4 if thorough else 3, ["none", "required", "optional"], ["all", "last"], "global", ["value", "skip"], None, archive=True),
@@ -454,6 +467,12 @@ def obligations(tier):
                    outside=["a pre-seeded component that directly depends on another pre-seeded one with the targets given as a list: dr.run raises KeyError in its pruning loop before anything is evaluated (not a statement of C01; see DESIGN.md, observations)"],
                    stubs=stubs, encoded=enc, budget_s=600 if thorough else 100, replay="run", check_sample=True),
     ]
+    obls.append(Obligation("O7-priorities", make_o2(4 if thorough else 3, ["none", "required", "optional"], ["all", "last", "group"], "global", ["value", "skip"], 0, prio=True),
+                           ["run-returns", "once-and-ordered"],
+                           desc="one component carries a collection priority (`prio`) other than 0, as registry points and datasources may: priorities order independent sub-graphs, never a component before its dependencies",
+                           bounds={"components": 4 if thorough else 3, "edge kinds": ["none", "required", "optional"], "priority": "one component with prio 1, -1 or 5", "outcomes": ["value", "skip"],
+                                   "targets": "all named / last named / group registry", "set order": "every global total order"},
+                           stubs=stubs, encoded=enc, budget_s=600 if thorough else 100, replay="run", check_sample=True))
     n2 = 4 if thorough else 3
     return obls + [
         Obligation("O3-broker-setitem", make_o3(), ["overwrite-refused"],
@@ -502,7 +521,8 @@ def _native_case(case, hashes=None):
         edges = dict(((i, j), k) for i, j, k in case["edges"])
         outcomes = dict((int(i), o) for i, o in case["outcomes"].items())
         w, b, bad = run_world(case["n"], edges, outcomes, case["seeded"], case["mode"], disabled=case.get("disabled", ()),
-                              seed_kinds=case.get("seed_kinds"), late=case.get("late"), archive=case.get("archive", False), hashes=hashes)
+                              seed_kinds=case.get("seed_kinds"), late=case.get("late"), archive=case.get("archive", False), hashes=hashes,
+                              prios=dict((int(k_), v_) for k_, v_ in (case.get("prios") or {}).items()))
         return w, bad
     raise ValueError(case)
 
@@ -564,7 +584,7 @@ def check_samples(payload):
     mism = []
     for s in payload["samples"]:
         ob = payload["obligation"].split("@")[0]
-        if ob.startswith("O2") or ob in ("O5-late-dependency", "O6-archive-prune"):
+        if ob.startswith("O2") or ob in ("O5-late-dependency", "O6-archive-prune", "O7-priorities"):
             s = dict(s)
             s["kind"] = "run"
             w, bad = _native_case(s)
